@@ -217,7 +217,8 @@ def workdir():
 @contextlib.contextmanager
 def build_lock():
     os.makedirs(BUILD, exist_ok=True)
-    with open(os.path.join(BUILD, ".lock_" + os.path.basename(workdir())), "w") as lf:
+    # one lock for every work copy: the Go build cache under .build/gocache is shared and is pruned under this lock
+    with open(os.path.join(BUILD, ".lock"), "w") as lf:
         fcntl.flock(lf, fcntl.LOCK_EX)
         try:
             yield
